@@ -21,6 +21,11 @@ BASE = ("qkeras from /repo working tree on tf_keras 2.21 (TF_USE_LEGACY_KERAS=1)
 TECH = "deterministic simulation with fault injection: "
 
 CHECKS = {
+    "C20": ("A", "exploration",
+            "AutoQKHyperModel is a stateful server (pattern groups, adjusted limits, target's cached reference and last trial size, the reference model and optimizer) driven by another party. A fake tuner owning real keras_tuner HyperParameters discovers the space, then issues seeded trial sequences with duplicates, reordered batches, builds that die at the k-th hp request or right after quantize_model, walks of small spaces (exhaustive when below the cap) and block sequencing with a shared target as AutoQKerasScheduler does. Per trial, independently of qkeras' bookkeeping: every quantizer on the trial model is a configured string of its tensor role within the limit of the matching pattern/class, layers outside limits or layer_indexes keep class and config, pattern groups share a choice, names/order equal the reference and units/filters follow max(int(n*scale),1), the reference model/optimizer is unchanged; history: the trial model equals what a fresh hyper-model builds for the same assignment; forgiving factor: zero at equal size, sign, strictly decreasing in trial size, per-layer size entries = elements x bits. Sampling, not proof.",
+            BASE + "keras-tuner 1.0.3 HyperParameters with PROTOCOL_BUFFERS_PYTHON_IMPLEMENTATION=python; no training or scoring; GRU reference layers excluded (QGRU reset_after path cannot run on TF 2.21); pointwise/recurrent kernels are judged against the kernel section and limit, as the hyper-model documents.",
+            TECH + "hyper-model as a server under a fake tuner issuing seeded trial/duplicate/reorder/crash/next-block sequences; independent per-trial oracle + fresh-server history oracle",
+            "4 C20"),
     "C15": ("T", "exploration",
             "The folded conv+BN layers carry a step clock (_iteration) and EMA state; inference equality is checked at arbitrary instants of a simulated training history: before the first step, inside the pre-freeze window, exactly at ema_freeze_delay, just past it, after clock jumps (checkpoint loads), after BN statistic faults (tiny variance, zero/negative gamma, large mean), after restarts (json/clone/h5) and after conversion from a stock conv+BN model. At every probe the model must equal a stock Keras model whose folded layers are replaced by conv layers holding [q(kernel*gamma/sqrt(var+eps)), q((bias-mean)*gamma/sqrt(var+eps)+beta)] computed by the harness from the current parameters, and the probe must change no variable (clock, moving statistics, weights); unfold_model and model_quantize(enable_bn_folding) must preserve predictions. Sampling, not proof.",
             BASE + "training calls are forward passes with training=True (no optimizer); probes whose folded values sit within 2e-6 (relative) of a rounding breakpoint are not judged; conversion is compared with the source within the error of 16-bit weights and then by the exact per-layer oracle.",
